@@ -207,6 +207,7 @@ class Comparer:
         self.meta = meta
         self.by_key = collections.Counter()
         self.paths = set()
+        self.absent = set()
         self.items = 0
         self.sgpairs = 0
         self.instances = 0
@@ -225,7 +226,7 @@ class Comparer:
 
     def compare(self, prog, inst, r, ri, k, m, got):
         self.instances += 1
-        items, paths, sg = prog.expected(r, ri, k, m)
+        items, paths, sg = prog.expected(r, ri, k, m, self.absent)
         if got is None:
             raise vlib.ToolError(f"{prog.bin}: no output for instance {inst}")
         if "panic" in got:
@@ -400,7 +401,7 @@ def generate_build_run(chk, model, sel, nbins, prefix="gen_b"):
 def run(prop, tier):
     chk = vlib.Check(prop, tier)
     chk.rule = ("traces = distinct root-to-leaf paths of Naming.tla whose expected item was compared with what the compiled "
-                "program emitted; evaluations = emitted items + sample-group pairs compared; distinct_nontrivial = distinct "
+                "program emitted (incl. the paths that must contribute nothing: ignored fields, None leaves, None children); evaluations = emitted items + sample-group pairs compared; distinct_nontrivial = distinct "
                 "(path, final name) pairs")
     chk.assumptions = [
         "identifiers are lowercase snake-case words (fields, prefixes) and PascalCase words (variants); Inflector's treatment of digits/acronyms is out of scope",
@@ -428,14 +429,17 @@ def run(prop, tier):
     for prog, out in zip(progs, outs):
         for inst, root, ri, k, m in prog.instances():
             cmp_.compare(prog, inst, root, ri, k, m, out.get(inst))
-    chk.traces = len(cmp_.paths)
+    chk.traces = len(cmp_.paths) + len(cmp_.absent)
     chk.evaluations = cmp_.items + cmp_.sgpairs
     for p in cmp_.paths:
+        chk.nontrivial.add(p)
+    for p in cmp_.absent:
         chk.nontrivial.add(p)
     fam = collections.Counter(p[0][0] for p in cmp_.paths)
     kinds = collections.Counter(p[1] for p in cmp_.paths)
     chk.extra.update({"instances": cmp_.instances, "items_compared": cmp_.items, "sample_group_pairs_compared": cmp_.sgpairs,
                       "paths_by_family": dict(fam), "paths_by_leaf": dict(kinds),
+                      "absent_paths_checked": dict(collections.Counter(p[1] for p in cmp_.absent)),
                       "names_over_100_bytes": cmp_.long[">100"], "names_of_100_bytes": cmp_.long["100"],
                       "names_of_101_bytes": cmp_.long["101"], "order_drift_instances": cmp_.order_drift,
                       "violations_by_key": dict(cmp_.by_key), **stats})
